@@ -26,6 +26,7 @@ type C12Pub struct {
 }
 
 type C12BCase struct {
+	Transport
 	NPubs  int      `json:"npubs"`
 	SubQoS byte     `json:"subqos"`
 	Pubs   []C12Pub `json:"pubs"`
@@ -38,6 +39,7 @@ func runC12Broker(c C12BCase) (fail string, classes []string) {
 	if err != nil {
 		return "fixture: " + err.Error(), nil
 	}
+	c.Transport.apply(b)
 	defer b.Shutdown()
 	pubs := make([]*fix.Conn, c.NPubs)
 	for i := range pubs {
@@ -135,6 +137,7 @@ func genC12Broker(t *rapid.T) C12BCase {
 		}
 		c.Pubs = append(c.Pubs, p)
 	}
+	c.Transport = genTransport(t)
 	return c
 }
 
